@@ -132,12 +132,141 @@ def rename_members(F, cls, actual_to_canon):
             fl["name"] = fl["name"][1:]
 
 
+def _private_callees(F, cls, callers):
+    """non-public methods of cls called from every function of `callers` (fid -> function)"""
+    common = None
+    for f in callers:
+        here = {h["fid"]: h for c, h in F.callees(f) if h.get("cls") == cls and h.get("access") != "public" and h.get("kind") == "method"}
+        common = here if common is None else {k: v for k, v in common.items() if k in here}
+    return list((common or {}).values())
+
+
+def _ret(f):
+    return f.get("ret") or {}
+
+
+def _writes_field_of_type(F, E, g, cls, pred):
+    fields = {fl["name"]: fl for fl in F.record(cls)["fields"]}
+    return any(path[0] == "this" and len(path) >= 2 and path[1] in fields and pred(fields[path[1]]["ty"]) for path, how, node in E.function_writes_local(g))
+
+
+def private_function_roles(F, E, cls, short):
+    """canonical private function name -> [functions] of one instantiation, found by who calls them and what they do"""
+    out = {}
+    pub = lambda nm: [f for f in F.funcs(cls, nm) if f.get("access") == "public" and f.get("body")]
+    if short in ("CubicSplineND", "QuinticSplineND", "SepticSplineND"):
+        c = _private_callees(F, cls, pub("propagateGrad")) if pub("propagateGrad") else []
+        if len(c) == 1:
+            out["propagateGradInternal"] = c
+    elif short == "PPolyND":
+        c = _private_callees(F, cls, pub("update")) if pub("update") else []
+        if len(c) == 1:
+            out["initializeInternal"] = c
+        ev = pub("evaluate")
+        if ev:
+            cs = [h for f in ev for _, h in F.callees(f) if h.get("cls") == cls and h.get("access") != "public" and h.get("kind") == "method"]
+            cs = list({h["fid"]: h for h in cs}.values())
+            look = [h for h in cs if _ret(h).get("c") == "int"]
+            # the two-argument lookup may call the one-argument one
+            look += [h for f in look for _, h in F.callees(f) if h.get("cls") == cls and _ret(h).get("c") == "int" and h["fid"] not in {x["fid"] for x in look}]
+            horner = [h for h in cs if _ret(h).get("c") == "eigen"]
+            if look and len({h["name"] for h in look}) == 1:
+                out["findSegment"] = look
+            if len(horner) == 1:
+                out["evaluateSegmentHorner"] = horner
+        zero = [g for g in F.funcs(cls) if g.get("access") != "public" and g.get("kind") == "method" and not g["params"] and g.get("body") and g.get("const")]
+        tab = [g for g in zero if _writes_field_of_type(F, E, g, cls, lambda ty: ty.get("std") == "vector" and (ty.get("elem") or {}).get("c") == "eigen")]
+        dyn = [g for g in zero if _writes_field_of_type(F, E, g, cls, lambda ty: ty.get("c") == "eigen" and ty.get("rows") == -1 and ty.get("cols") == -1)]
+        if len(tab) == 1:
+            out["buildDerivativeCoefficients"] = tab
+        if len(dyn) == 1:
+            out["buildDynamicDerivativeFactorTable"] = dyn
+        # the guards in front of the two builders: no parameters, call the builder, write nothing themselves
+        for canon, built in (("ensureDerivativeCoefficients", tab), ("ensureDerivativeFactorTable", dyn)):
+            if len(built) == 1:
+                g = [z for z in zero if z["fid"] != built[0]["fid"] and any(h["fid"] == built[0]["fid"] for _, h in F.callees(z))
+                     and not any(path[0] == "this" for path, how, node in E.function_writes_local(z))]
+                if len(g) == 1:
+                    out[canon] = g
+        fac = [g for g in F.funcs(cls) if g.get("access") != "public" and g.get("kind") == "method" and g.get("body") and _ret(g).get("c") == "double"
+               and len(g["params"]) == 2 and all(p["ty"].get("c") == "int" for p in g["params"])]
+        if len(fac) == 1:
+            out["derivativeFactor"] = fac
+    elif short == "SplineOptimizer":
+        def has_string_ptr(g):
+            return any((p["ty"].get("c") == "ptr" and "basic_string" in str(p["ty"].get("pointee") or p["ty"])) for p in g["params"])
+        cv = [g for g in F.funcs(cls) if g.get("kind") == "method" and _ret(g).get("c") == "bool" and has_string_ptr(g)]
+        if len(cv) == 1:
+            out["checkValidity"] = cv
+        ev = pub("evaluate")
+        if ev:
+            def is_quadrature(h):
+                ps = h["params"]
+                return h.get("access") != "public" and h.get("cls") == cls and len(ps) >= 5 and _ret(h).get("c") == "void" \
+                    and any(p["ty"].get("c") == "double" and p["ty"].get("ref") and not p["ty"].get("const") for p in ps)
+            q = list({h["fid"]: h for f in ev for _, h in F.callees(f) if is_quadrature(h)}.values())
+            if q and len({h["name"] for h in q}) == 1:
+                out["calculateIntegralCost"] = q
+    return out
+
+
+def rename_functions(F, ren):
+    """ren: fid -> new name.  Function records and every resolved call site."""
+    if not ren:
+        return
+    for f in F.functions:
+        if f["fid"] in ren:
+            old, new = f["name"], ren[f["fid"]]
+            for key in ("full", "q"):
+                if isinstance(f.get(key), str) and f[key].endswith("::" + old):
+                    f[key] = f[key][:-len(old)] + new
+                elif isinstance(f.get(key), str) and ("::" + old) in f[key]:
+                    f[key] = f[key].replace("::" + old, "::" + new)
+            f["name"] = new
+    for f in F.functions:
+        nodes = [f.get("body")] + [i for i in (f.get("inits") or [])]
+        for nd in nodes:
+            for n in walk(nd):
+                c = n.get("callee") if isinstance(n, dict) else None
+                if isinstance(c, dict) and c.get("fid") in ren:
+                    old, new = c.get("name"), ren[c["fid"]]
+                    c["name"] = new
+                    if isinstance(c.get("q"), str) and old and c["q"].endswith("::" + old):
+                        c["q"] = c["q"][:-len(old)] + new
+
+
+def canonicalise_functions(F, E):
+    """a private function the rules know by name and that no longer carries it is found by its role and given the name back
+    (identity on the unchanged tree; nothing is done when the role cannot be identified - the rules then report the
+    missing anchor)"""
+    ren = {}
+    for cls, rec in F.records.items():
+        short = rec.get("short")
+        if short not in ("CubicSplineND", "QuinticSplineND", "SepticSplineND", "PPolyND", "SplineOptimizer") or cls.count("::") != 1 and short != "SplineOptimizer":
+            continue
+        have = {f["name"] for f in F.funcs(cls)}
+        try:
+            found = private_function_roles(F, E, cls, short)
+        except Broken:
+            continue
+        for canon, fs in found.items():
+            if canon in have or any(f["name"] == canon for f in fs):
+                continue
+            for f in fs:
+                ren[f["fid"]] = canon
+    rename_functions(F, ren)
+    return ren
+
+
 def canonicalise(F):
     """once per loaded fact base"""
     if getattr(F, "_canonical", False):
         return F
     F._canonical = True
     E = Effects(F)
+    F._renamed_functions = canonicalise_functions(F, E)
+    if F._renamed_functions:
+        E = Effects(F)
     # the member names are those of the class template: discover the roles on an instantiation whose members are all there
     # (an explicitly instantiated one) and apply the mapping to every instantiation of the template
     pp_classes = [cls for cls in F.records if cls.startswith("SplineTrajectory::PPolyND<") and cls.count("::") == 1]
